@@ -67,6 +67,9 @@ type stepper struct {
 	sockdir   string
 	cancel    context.CancelFunc
 	panicked  string
+	calls     []*call // prepared Call steps, in order
+	pipeline  bool    // all calls are written up front (the client runs ahead of the server)
+	pipeErr   chan error
 }
 
 var leakRe = regexp.MustCompile(`outstanding=(-?\d+)`)
@@ -168,6 +171,29 @@ func (s *stepper) Begin(b replay.Behaviour, rng *rand.Rand) error {
 	go s.readLoop()
 	if n, ok := outstanding(); ok {
 		s.baseline = n
+	}
+	// prepare every call of the behaviour up front so that a pipelining client can write
+	// them back to back (sockets only: an io.Pipe hands over one Write at a time)
+	s.calls = nil
+	for _, st := range b {
+		if st.A != "Call" {
+			continue
+		}
+		s.calls = append(s.calls, &call{k: replay.Str(st.Args, "k"), m: replay.Str(st.Args, "m"), args: st.Args,
+			rid: fmt.Sprintf("rid-%d-%d", len(s.calls)+1, rng.Intn(1<<30)), x: rng.Int63n(1<<50) - (1 << 49)})
+	}
+	s.pipeline = s.transport != "pipe" && len(s.calls) > 1 && rng.Intn(2) == 0
+	if s.pipeline {
+		s.pipeErr = make(chan error, 1)
+		go func() {
+			for _, c := range s.calls {
+				if err := s.writeCall(c); err != nil {
+					s.pipeErr <- err
+					return
+				}
+			}
+			s.pipeErr <- nil
+		}()
 	}
 	return nil
 }
@@ -527,10 +553,16 @@ func (s *stepper) Step(i int, st replay.Step) (replay.Obs, error) {
 		return nil, fmt.Errorf("unknown action %q", st.A)
 	}
 	s.ncall++
-	c := &call{k: replay.Str(st.Args, "k"), m: replay.Str(st.Args, "m"), args: st.Args,
-		rid: fmt.Sprintf("rid-%d-%d", s.ncall, s.rng.Intn(1<<30)), x: s.rng.Int63n(1<<50) - (1 << 49)}
+	if s.ncall > len(s.calls) {
+		return nil, fmt.Errorf("call %d was not prepared", s.ncall)
+	}
+	c := s.calls[s.ncall-1]
 	werr := make(chan error, 1)
-	go func() { werr <- s.writeCall(c) }()
+	if s.pipeline {
+		werr <- nil
+	} else {
+		go func() { werr <- s.writeCall(c) }()
+	}
 	// read the response: one data stream, preceded by a header stream when the first
 	// stream is a header
 	var resp [][]batchRec
